@@ -824,6 +824,11 @@ func (vfs *OrefaFS) Rename(oldname, newname string) error {
 		return &os.LinkError{Op: op, Old: oldname, New: newname, Err: vfs.err.InvalidArgument}
 	}
 
+	// Renaming a file to another hard link of itself does nothing.
+	if nChildOk && nChild == oChild {
+		return nil
+	}
+
 	nParent.mu.Lock()
 	defer nParent.mu.Unlock()
 
